@@ -18,7 +18,9 @@ def run(ctx):
               "{size_t,int,unsigned}: every half-integer h+1/2 for h < 2^12 (2^16 thorough) and h = 2^k-1 up to the mantissa width, each with "
               "its two neighbouring representable values; integers; for double also 2^24, 2^25, 2^32, 2^40 +-3 (+1/2, +-ulp): values a float "
               "cannot hold; uniform random in (-0.5, 2^e-0.5).  Distance |p_k-x_k| <= 1/2 decided exactly in binary128.  Array-backed "
-              "nn<strided<array>> N 1..3 with a unique id per cell: the returned id is decoded to its cell and the same test applied. "
+              "nn<strided<array>> N 1..3 with a unique id per cell: the returned id is decoded to its cell and the same test applied.  Probe-backed "
+              "nn<strided<probe<VALUE>>> for value types float/double/unsigned char/short, extents up to 2^22 (float coordinates) / 2^40 (double), "
+              "coordinates around 2^8, 2^16 and 2^24: the flat index READ is decoded and tested the same way (the chosen cell must not depend on the value type). "
               "non-trivial: some component within 2 ulp of a half-integer or not representable in float; distinct = hash of (instantiation, x)"),
         assumptions=["default rounding mode (round-to-nearest) only", "coordinates lie in (-0.5, extent-0.5) and inside the index type",
                      "either neighbour is accepted on an exact tie (the property does not fix the tie direction)"])
